@@ -29,6 +29,11 @@ pub(crate) struct TransactionManager {
     pub control_link_outgoing: mpsc::Sender<LinkFrame>,
     pub txns: OrderedMap<TransactionId, ResourceTransaction>,
     pub control_link_acceptor: Arc<ControlLinkAcceptor>,
+
+    /// Transactional deliveries that are still incomplete (`more = true`), keyed by the link's
+    /// input handle. Only the first transfer of a delivery is required to carry the
+    /// transactional state; the remaining transfers belong to the same transaction.
+    pub incomplete_posts: std::collections::HashMap<u32, TransactionId>,
 }
 
 impl TransactionManager {
@@ -40,6 +45,7 @@ impl TransactionManager {
             control_link_outgoing,
             txns: OrderedMap::new(),
             control_link_acceptor: Arc::new(control_link_acceptor),
+            incomplete_posts: std::collections::HashMap::new(),
         }
     }
 }
